@@ -961,7 +961,7 @@ func mitigationLifecycle(c *Ctx, id string) {
 		calls(map[*ssa.Function]string{wfc: "waitFirstConfig", rc: "reconfigure", cw: "configWatch"}), "Start = first config (or die), reconfigure, watch loop")
 	// the panic of Start is under the error of waitFirstConfig
 	allInstrs(start, func(in ssa.Instruction) {
-		if _, isP := in.(*ssa.Panic); isP {
+		if isPanicLike(in) {
 			okG := errGuard(in.Block(), false, func(v ssa.Value) bool {
 				call, ok := v.(*ssa.Call)
 				return ok && call.Common().StaticCallee() == wfc
@@ -1071,7 +1071,7 @@ func mitigationLifecycle(c *Ctx, id string) {
 		return "", nil
 	}, "loadVbUUIDMap = one loader per vBucket, Wait, die on error")
 	allInstrs(lm, func(in ssa.Instruction) {
-		if _, isP := in.(*ssa.Panic); isP {
+		if isPanicLike(in) {
 			okG := errGuard(in.Block(), false, func(v ssa.Value) bool {
 				call, ok := v.(*ssa.Call)
 				return ok && strings.HasSuffix(calleeName(call.Common()), "errgroup.Group).Wait")
@@ -1517,7 +1517,7 @@ func mitigationStopHandshake(c *Ctx, id string) {
 	if rc, ma := w.Method("couchbase", "rollbackMitigation", "reconfigure"), w.Method("couchbase", "rollbackMitigation", "markAbsentInstances"); rc != nil && ma != nil {
 		nP := 0
 		allInstrs(rc, func(in ssa.Instruction) {
-			if _, isP := in.(*ssa.Panic); isP {
+			if isPanicLike(in) {
 				nP++
 				okG := errGuard(in.Block(), false, func(v ssa.Value) bool {
 					call, ok := v.(*ssa.Call)
@@ -2022,6 +2022,14 @@ func clientWiring(c *Ctx, id string) {
 		var got []string
 		for _, g := range liveGuards(in.Block()) {
 			v, pol := stripNot(g.Cond, g.Branch)
+			if f, _ := flagRead(v); f == nil {
+				// a predicate method that returns the flag test
+				if v2, pol2 := stripNotThroughPredicates(g.Cond, g.Branch); v2 != v {
+					if f2, _ := flagRead(v2); f2 != nil {
+						v, pol = v2, pol2
+					}
+				}
+			}
 			if f, _ := flagRead(v); f != nil {
 				o := w.Origin(v)
 				parts := strings.Split(o, ".")
@@ -2173,6 +2181,9 @@ func liveGuards(b *ssa.BasicBlock) []Guard {
 		}
 		dies := false
 		for _, x := range other.Instrs {
+			if callsNoReturn(x) {
+				dies = true
+			}
 			switch x.(type) {
 			case *ssa.Panic:
 				dies = true // whatever was tested, failing it is fatal
